@@ -12,6 +12,8 @@ this technique's reach (see MANIFEST level_note).  What is decided here, on the 
                                       conflict, timestamp fencing, no stale result finalised (Scheduler::validate / next /
                                       lock_finality_candidate inductive steps; = C02 step_V, step_VF)
   h3_execute                        : execute_task's publication / rewind step (= C02 step_R)
+  h3_execute_rewind_two_locations   : real execute_task over two locations: a write set that gains a location (also by moving, same size) sends
+                                      every later transaction back through validation (= C02 rewind_on_new_write)
 """
 import c02
 import c08
@@ -20,7 +22,7 @@ import c09
 PICK = {
     "c08": {"h2_storage_read": "h2a_storage_read", "h3_publish": "h2c_publish", "h4_roundtrip": "h2d_roundtrip_storage"},
     "c09": {"h2_basic_read": "h2b_basic_read", "h3_roundtrip": "h2d_roundtrip_account"},
-    "c02": {"step_V_n3": "h3_validate", "step_VF_n3": "h3_validate_finality", "step_R_n3": "h3_execute"},
+    "c02": {"step_V_n3": "h3_validate", "step_VF_n3": "h3_validate_finality", "step_R_n3": "h3_execute", "rewind_on_new_write_n3_l2": "h3_execute_rewind_two_locations"},
 }
 
 
